@@ -3,7 +3,8 @@
    original (alias) program and every buffer other than the new allocation ends with the same
    contents, from any start state.  Simulation invariant: which of the new buffer A and the source
    buffer B currently holds the up-to-date contents (synced-A / synced-B), driven by the flags
-   `seen` (copy-in already emitted) and `dirty` (an output use happened, its copy-out is still to come). *)
+   `seen` (a use of the cast has happened: A is current from then on, either through the copy-in or
+   because the first use overwrote it) and `dirty` (an output use happened, its copy-out is still to come). *)
 From Snax Require Import Base.Prelude Model.C12Casts.
 
 Lemma upd_same {X} (f : nat -> X) k x : upd f k x k = x.
@@ -52,7 +53,7 @@ Section Coherence.
     r_mem : forall b, b <> A -> b <> B -> memo s b = memo s' b;
     r_trace : trace s = trace s';
     r_syncB : dirty = false -> memo s' B = memo s B;
-    r_syncA : seen = true \/ dirty = true -> memo s' A = memo s B
+    r_syncA : seen = true -> memo s' A = memo s B
   }.
 
   (* a foreign value: same buffer on both sides, neither A nor B *)
@@ -248,19 +249,20 @@ Section Coherence.
     flat_ok d others (IOp id uses) = true ->
     existsb (fun u => (fst u =? d)%nat && k_is_input (snd u)) uses = i ->
     existsb (fun u => (fst u =? d)%nat && k_is_output (snd u)) uses = o ->
-    Rel seen dirty s s' -> (i && negb seen = true -> dirty = false) ->
-    Rel (seen || i) (if o then later else dirty)
+    i || o = true ->
+    Rel seen dirty s s' -> (seen = false -> dirty = false) ->
+    Rel true (if o then later else dirty)
         (exec_item trips (IOp id uses) s)
         (exec_list trips ((if i && negb seen then [ICopy s0 d] else []) ++ [IOp id uses] ++
                           (if o && negb later then [ICopy d s0] else [])) s').
   Proof.
-    intros Hok Ei Eo R Hsafe. cbn [flat_ok] in Hok. apply andb_true_iff in Hok as [Hm Hsound].
+    intros Hok Ei Eo Hio R Hsafe. cbn [flat_ok] in Hok. apply andb_true_iff in Hok as [Hm Hsound].
     rewrite !exec_list_app.
     (* copy-in *)
     assert (R1 : Rel (seen || i) dirty s
                    (exec_list trips (if i && negb seen then [ICopy s0 d] else []) s')).
     { destruct (i && negb seen) eqn:Ec.
-      - apply andb_true_iff in Ec as [Hi Hseen]. specialize (Hsafe eq_refl).
+      - apply andb_true_iff in Ec as [Hi Hseen]. apply negb_true_iff in Hseen. specialize (Hsafe Hseen).
         unfold exec_list. cbn [fold_left exec_item].
         assert (Es0 : alias s' s0 = B) by (rewrite <- (r_alias _ _ _ _ R s0 Hs0); apply (r_s0 _ _ _ _ R)).
         rewrite (r_d' _ _ _ _ R), Es0.
@@ -275,7 +277,7 @@ Section Coherence.
     set (s1' := exec_list trips (if i && negb seen then [ICopy s0 d] else []) s') in *.
     (* the operation *)
     assert (HsA : (exists u, In u uses /\ fst u = d /\ k_reads (snd u) = true) -> memo s1' A = memo s B).
-    { intros [u [Hu [E Hr]]]. apply (r_syncA _ _ _ _ R1). left.
+    { intros [u [Hu [E Hr]]]. apply (r_syncA _ _ _ _ R1).
       cbn [sound_uses] in Hsound. rewrite forallb_forall in Hsound. specialize (Hsound u Hu).
       rewrite E, Nat.eqb_refl in Hsound. cbn [negb orb] in Hsound. apply andb_true_iff in Hsound as [Hs1 _].
       rewrite Hr in Hs1. cbn [implb] in Hs1.
@@ -317,7 +319,10 @@ Section Coherence.
         * exact Gt.
         * intros _. rewrite upd_same. symmetry. exact GA.
         * intros _. rewrite upd_other by exact HAB. symmetry. exact GA.
-    - destruct GA as [GA1 GA2]. cbn [andb]. unfold exec_list. cbn [fold_left].
+    - (* d is only read: the copy-in (now or earlier) made A current *)
+      rewrite orb_false_r in Hio.
+      assert (Hsi : (seen || i)%bool = true) by (rewrite Hio; apply orb_true_r).
+      destruct GA as [GA1 GA2]. cbn [andb]. unfold exec_list. cbn [fold_left].
       constructor.
       + intros v Hv. rewrite Ga, Ga'. apply (r_alias _ _ _ _ R1 v Hv).
       + rewrite Ga. apply (r_d _ _ _ _ R1).
@@ -328,7 +333,7 @@ Section Coherence.
       + exact Gm.
       + exact Gt.
       + intros Hd. rewrite GB, GA1. apply (r_syncB _ _ _ _ R1 Hd).
-      + intros Hd. rewrite GA2, GA1. apply (r_syncA _ _ _ _ R1 Hd).
+      + intros _. rewrite GA2, GA1. apply (r_syncA _ _ _ _ R1 Hsi).
   Qed.
 
   Lemma flat_use_is_op it f : flat_ok d others it = true -> item_flags d it = Some f ->
@@ -362,69 +367,44 @@ Section Coherence.
     - right. rewrite <- Eo. apply existsb_exists. exists u. rewrite Eu, Hk. auto.
   Qed.
 
-  Lemma flat_first_use_none it : flat_ok d others it = true -> item_flags d it = None ->
-    first_use_item d it = None /\ item_has_out d it = false.
+  Lemma flat_has_out_none it : flat_ok d others it = true -> item_flags d it = None ->
+    item_has_out d it = false.
   Proof.
-    intros Hok Hf. destruct it; cbn [first_use_item item_has_out]; try (rewrite Hf; split; reflexivity). discriminate.
-  Qed.
-
-  Lemma has_out_first_use r : forallb (flat_ok d others) r = true -> has_out d r = true ->
-    exists b, first_use d r = Some b.
-  Proof.
-    induction r as [|x r IH]; intros Hflat Ho; [discriminate|].
-    cbn [forallb] in Hflat. apply andb_true_iff in Hflat as [Hx Hr].
-    cbn [has_out existsb] in Ho. fold (has_out d r) in Ho. cbn [first_use].
-    destruct (item_flags d x) as [[i o]|] eqn:Ef.
-    - destruct (flat_use_is_op x (i, o) Hx Ef) as [id [uses ->]]. cbn [first_use_item]. rewrite Ef. exists i. reflexivity.
-    - destruct (flat_first_use_none x Hx Ef) as [E1 E2]. rewrite E1. rewrite E2 in Ho. apply IH; assumption.
+    intros Hok Hf. destruct it; cbn [item_has_out]; try (rewrite Hf; reflexivity). discriminate.
   Qed.
 
   Theorem realize_block_coherent : forall l seen dirty s s',
     forallb (flat_ok d others) l = true ->
-    (seen = false -> dirty = true -> first_use d l = Some false) ->
+    (seen = false -> dirty = false) ->
     (dirty = true -> has_out d l = true) -> Rel seen dirty s s' ->
     exists seen', Rel seen' false (exec_list trips l s)
-                      (exec_list trips (fst (ins_list d s0 seen false false l)) s').
+                      (exec_list trips (fst (ins_list d s0 seen false l)) s').
   Proof.
     induction l as [|it r IH]; intros seen dirty s s' Hflat Hinv Hdirty R.
     - exists seen. destruct dirty; [specialize (Hdirty eq_refl); discriminate|exact R].
     - cbn [forallb] in Hflat. apply andb_true_iff in Hflat as [Hit Hr].
-      cbn [ins_list]. rewrite orb_false_r. unfold next_in.
+      cbn [ins_list]. rewrite orb_false_r.
       change (exec_list trips (it :: r) s) with (exec_list trips r (exec_item trips it s)).
       cbn [has_out existsb] in Hdirty. fold (has_out d r) in Hdirty.
-      cbn [first_use] in Hinv.
       destruct (item_flags d it) as [[i o]|] eqn:Ef.
       + destruct (flat_use_is_op it (i, o) Hit Ef) as [id [uses ->]].
-        cbn [first_use_item] in Hinv. rewrite Ef in Hinv.
         cbn [ins_item]. rewrite Ef. cbn [fst snd]. rewrite exec_list_app.
-        set (nx := match first_use d r with Some b => b | None => false end).
-        set (c := (negb (has_out d r) || negb (seen || i) && nx)%bool).
+        pose proof (flags_io id uses i o Ef) as Hio.
         assert (Hfl := Ef). cbn [item_flags] in Hfl. destruct (uses_val d uses); [|discriminate].
         assert (Ei : existsb (fun u => (fst u =? d)%nat && k_is_input (snd u)) uses = i) by congruence.
         assert (Eo : existsb (fun u => (fst u =? d)%nat && k_is_output (snd u)) uses = o) by congruence.
         clear Hfl.
-        assert (Hc : i && negb seen = true -> dirty = false).
-        { intros Hc. apply andb_true_iff in Hc as [Hi Hs]. apply negb_true_iff in Hs.
-          destruct dirty; [|reflexivity]. specialize (Hinv Hs eq_refl). congruence. }
-        pose proof (step_use seen dirty id uses i o (negb c) s s' Hit Ei Eo R Hc) as R1.
-        rewrite negb_involutive in R1.
-        apply (IH (seen || i)%bool (if o then negb c else dirty) _ _ Hr); [| |exact R1].
-        * intros Hsi Hd1. apply orb_false_iff in Hsi as [Hs Hi].
-          pose proof (flags_io id uses i o Ef) as Hio. rewrite Hi in Hio. cbn [orb] in Hio.
-          rewrite Hio in Hd1. apply negb_true_iff in Hd1. unfold c in Hd1. rewrite Hs, Hi in Hd1.
-          cbn [orb negb andb] in Hd1.
-          apply orb_false_iff in Hd1 as [Hho Hnx]. apply negb_false_iff in Hho.
-          destruct (has_out_first_use r Hr Hho) as [b Eb]. unfold nx in Hnx. rewrite Eb in Hnx. subst b. exact Eb.
-        * destruct o.
-          -- intros Hd1. apply negb_true_iff in Hd1. unfold c in Hd1. apply orb_false_iff in Hd1 as [Hho _].
-             apply negb_false_iff in Hho. exact Hho.
-          -- intros Hd. specialize (Hdirty Hd). cbn [item_has_out] in Hdirty. rewrite Ef in Hdirty. exact Hdirty.
-      + destruct (flat_first_use_none it Hit Ef) as [E1 E2]. rewrite E1 in Hinv. rewrite E2 in Hdirty.
-        assert (Hins : forall nx, ins_item d s0 seen (has_out d r) nx it = ([it], seen)).
-        { intros nx. destruct it; cbn [ins_item]; try (rewrite Ef; reflexivity). discriminate. }
+        pose proof (step_use seen dirty id uses i o (has_out d r) s s' Hit Ei Eo Hio R Hinv) as R1.
+        apply (IH true (if o then has_out d r else dirty) _ _ Hr); [discriminate| |exact R1].
+        destruct o.
+        * intros Hd1. exact Hd1.
+        * intros Hd. specialize (Hdirty Hd). cbn [item_has_out] in Hdirty. rewrite Ef in Hdirty. exact Hdirty.
+      + pose proof (flat_has_out_none it Hit Ef) as E2. rewrite E2 in Hdirty.
+        assert (Hins : ins_item d s0 seen (has_out d r) it = ([it], seen)).
+        { destruct it; cbn [ins_item]; try (rewrite Ef; reflexivity). discriminate. }
         rewrite Hins. cbn [fst snd app].
-        change (exec_list trips (it :: fst (ins_list d s0 seen false false r)) s')
-          with (exec_list trips (fst (ins_list d s0 seen false false r)) (exec_item trips it s')).
+        change (exec_list trips (it :: fst (ins_list d s0 seen false r)) s')
+          with (exec_list trips (fst (ins_list d s0 seen false r)) (exec_item trips it s')).
         apply (IH seen dirty _ _ Hr Hinv Hdirty). apply step_other; assumption.
   Qed.
 End Coherence.
@@ -439,7 +419,7 @@ Theorem realize_coherent (trips : nat -> nat) (d src td ts s0 : nat) (others : l
   (forall v, alias s v = alias s s0 -> In v others) -> (* every current alias of the source buffer *)
   safe_block d others post = true ->
   let t := exec_list trips (ICast d src td ts :: post) s in
-  let t' := exec_list trips (IAlloc d :: fst (ins_list d s0 false false false post)) s in
+  let t' := exec_list trips (IAlloc d :: fst (ins_list d s0 false false post)) s in
   trace t = trace t' /\ forall b, b <> d -> memo t b = memo t' b.
 Proof.
   intros Hfresh Hsrc HBo Hs0o Hdo Hal Hsafe t t'.
@@ -458,13 +438,13 @@ Proof.
     - intros b Hb _. rewrite upd_other by exact Hb. reflexivity.
     - reflexivity.
     - intros _. rewrite upd_other by congruence. reflexivity.
-    - intros [H|H]; discriminate. }
+    - discriminate. }
   destruct (realize_block_coherent trips d s0 B others HAB Hs0 HBo Hs0o post false false _ _ Hflat
-              ltac:(discriminate) ltac:(discriminate) R) as [seen' R'].
+              ltac:(reflexivity) ltac:(discriminate) R) as [seen' R'].
   unfold t, t'.
   change (exec_list trips (ICast d src td ts :: post) s) with (exec_list trips post (exec_item trips (ICast d src td ts) s)).
-  change (exec_list trips (IAlloc d :: fst (ins_list d s0 false false false post)) s)
-    with (exec_list trips (fst (ins_list d s0 false false false post)) (exec_item trips (IAlloc d) s)).
+  change (exec_list trips (IAlloc d :: fst (ins_list d s0 false false post)) s)
+    with (exec_list trips (fst (ins_list d s0 false false post)) (exec_item trips (IAlloc d) s)).
   split; [apply (r_trace _ _ _ _ _ _ _ _ R')|].
   intros b Hb. destruct (Nat.eq_dec b B) as [->|HbB].
   - symmetry. apply (r_syncB _ _ _ _ _ _ _ _ R'). reflexivity.
@@ -472,9 +452,14 @@ Proof.
 Qed.
 
 (* non-vacuity: write, read, write of one argument through a shared cast (the former F22 witness) is
-   inside the Safe region of the repaired pass; the flush after the first writer is emitted *)
+   inside the Safe region of the repaired pass: the first use only writes, so no copy-in is emitted and
+   the reader sees what the first writer produced; one copy-out after the last writer.  Second shape:
+   read first (copy-in), then an accumulating writer (copy-out). *)
 Example realize_coherent_nonvacuous :
   safe_block 2%nat [0%nat] [IOp 0 [(2, KOut)]; IOp 1 [(2, KIn); (3, KOut)]; IOp 2 [(2, KOut)]]%nat = true /\
-  fst (ins_list 2%nat 0%nat false false false [IOp 0 [(2, KOut)]; IOp 1 [(2, KIn); (3, KOut)]; IOp 2 [(2, KOut)]]%nat) =
-    [IOp 0 [(2, KOut)]; ICopy 2 0; ICopy 0 2; IOp 1 [(2, KIn); (3, KOut)]; IOp 2 [(2, KOut)]; ICopy 2 0]%nat.
-Proof. split; reflexivity. Qed.
+  fst (ins_list 2%nat 0%nat false false [IOp 0 [(2, KOut)]; IOp 1 [(2, KIn); (3, KOut)]; IOp 2 [(2, KOut)]]%nat) =
+    [IOp 0 [(2, KOut)]; IOp 1 [(2, KIn); (3, KOut)]; IOp 2 [(2, KOut)]; ICopy 2 0]%nat /\
+  safe_block 2%nat [0%nat] [IOp 0 [(2, KIn); (3, KOut)]; IOp 1 [(3, KIn); (2, KOutAcc)]]%nat = true /\
+  fst (ins_list 2%nat 0%nat false false [IOp 0 [(2, KIn); (3, KOut)]; IOp 1 [(3, KIn); (2, KOutAcc)]]%nat) =
+    [ICopy 0 2; IOp 0 [(2, KIn); (3, KOut)]; IOp 1 [(3, KIn); (2, KOutAcc)]; ICopy 2 0]%nat.
+Proof. repeat split; reflexivity. Qed.
